@@ -106,7 +106,7 @@ func TestC02_Rapid(t *testing.T) {
 		t.Fatalf("cannot extract the option list from the source tree: %v", err)
 	}
 	recordV6Coverage(c02.rec)
-	c02.rapidCheck(t, genV6Wire(v6Cfg(8, 20, true)))
+	c02.rapidCheck(t, genV6Wire(v6Cfg(100, 20, true))) // relay depth: mostly 0..8 as the property says, every depth up to 100 in one case of eight
 	// every option type the tree parses (and the harness knows) must have been hit
 	missing := []string{}
 	cov := v6Cov()
